@@ -329,7 +329,11 @@ def _f2_region(cfg, sz):
     return False
 
 
-PREDS = {'f1_short': _f1_short, 'f2_region': _f2_region}
+def _f8_absent_level(cfg, sz):
+    return 'level' in (cfg.get('absent') or {})
+
+
+PREDS = {'f1_short': _f1_short, 'f2_region': _f2_region, 'f8_absent_level': _f8_absent_level}
 
 
 def _in_known(fl, findings):
